@@ -97,7 +97,7 @@ def _worker_main(task_q, res_q, wid):
             pass
 
 
-def run_parallel(batches, nw, wall_cap):
+def run_parallel(batches, nw, wall_cap, should_stop=None):
     """Own process pool: survives a worker that dies (segfault in a C
     library, faulthandler timeout) and attributes the death to the run that
     was executing, with its flight-recorded operation list."""
@@ -139,6 +139,12 @@ def run_parallel(batches, nw, wall_cap):
             current[wid] = (k, payload)
         elif kind == "result":
             (errors if "harness_error" in payload else summaries).append(payload)
+            if should_stop is not None and "harness_error" not in payload and should_stop(payload):
+                for p in workers.values():
+                    p.kill()
+                workers.clear()
+                pending.clear()
+                break
         elif kind == "batch-done":
             pending.pop(k, None)
             current.pop(wid, None)
@@ -246,6 +252,7 @@ def main(argv=None):
     ap.add_argument("--no-shrink", action="store_true")
     ap.add_argument("--digests", action="store_true", help="print per-run digests (determinism self-test)")
     ap.add_argument("--no-evidence", action="store_true")
+    ap.add_argument("--fail-fast", action="store_true", help="stop dispatching runs after the first own violation")
     ap.add_argument("--show-others", action="store_true", help="print one example of every other-property observation")
     a = ap.parse_args(argv)
     prop = a.prop
@@ -290,7 +297,11 @@ def main(argv=None):
     summaries = []
     harness_errors = []
     wall_cap = cfg.get("wall_cap", {"quick": 900, "thorough": 7200})[tier]
-    summaries, harness_errors = run_parallel(batches, nw, wall_cap)
+    def _stop(summ):
+        return a.fail_fast and any(v["prop"] == prop and match_known(known, prop, v) is None
+                                   for v in summ.get("violations", []))
+
+    summaries, harness_errors = run_parallel(batches, nw, wall_cap, _stop)
     summaries.sort(key=lambda s: s["index"])
     if a.digests:
         for s in summaries:
